@@ -11,7 +11,8 @@ def main():
     sys.setrecursionlimit(10000)
     from . import ctx as ctxmod
     c = ctxmod.Ctx(spec["prop"], spec["part"], spec["cfg"], spec["tier"], spec["seed"], spec["shard"],
-                   spec["nshards"], spec["outdir"], skip=spec.get("skip", ()), only=spec.get("only"))
+                   spec["nshards"], spec["outdir"], skip=spec.get("skip", ()), only=spec.get("only"),
+                   skip_patterns=spec.get("skip_patterns", ()))
     c.write(False, "started")
     try:
         mod = importlib.import_module("verif.props." + spec["prop"])
